@@ -86,7 +86,19 @@ def perturb(rng, spec):
     s = {k: (list(v) if isinstance(v, list) else v) for k, v in spec.items()}
     d = len(s["dims"])
     a = rng.randrange(d)
-    how = rng.choice(["same", "origin", "spacing", "dims", "swap", "loc", "drop", "same"])
+    how = rng.choice(["same", "origin", "spacing", "dims", "swap", "loc", "drop", "same", "rect_bounds", "rect_bounds"])
+    if how == "rect_bounds":
+        # a rectilinear grid with the same node count and the same first and last node on every axis as the uniform one, one
+        # interior node moved (when an axis has an interior node and room to move it): other data locations
+        axes = gu.spec_axes(s)
+        ks = [k for k in range(d) if s["dims"][k] >= 3 and s["spacing"][k] >= 2]
+        if ks:
+            k = rng.choice(ks)
+            axes[k][rng.randrange(1, s["dims"][k] - 1)] += 1
+        else:
+            how = "rect_same"
+        order, rev, inc = rng.choice(list(gu.layouts(d)))
+        return {"kind": "rect", "axes": axes, "order": order, "rev": rev, "inc": inc, "loc": s["loc"]}, how
     if how == "origin":
         s["origin"][a] += rng.choice([1, -1, 2])
     elif how == "spacing":
